@@ -17,6 +17,7 @@ package cache
 import (
 	"context"
 	"fmt"
+	"regexp"
 	"sort"
 	"strings"
 	"time"
@@ -214,7 +215,7 @@ func (c *localCache) ReadCh(ctx context.Context, name string, opts *Opts, paths 
 		defer close(outCh)
 		ch, err := c.c.ReadValue(ctx, name, &cache.Opts{
 			Store:         getStore(opts.Store),
-			Path:          paths,
+			Path:          literalPaths(name, opts.Store, paths),
 			Owner:         opts.Owner,
 			Priority:      opts.Priority,
 			PriorityCount: opts.PriorityCount,
@@ -256,6 +257,27 @@ func (c *localCache) ReadCh(ctx context.Context, name string, opts *Opts, paths 
 		}
 	}()
 	return outCh
+}
+
+// literalPaths prepares the paths for a read from the config or state store: the cache compiles the joined path
+// into a regular expression ("*" being the wildcard element), so the regular expression metacharacters a key value
+// may contain ('[', '(', '+', '|', ...) are quoted. Candidates are queried literally and are left alone.
+func literalPaths(name string, store cachepb.Store, paths [][]string) [][]string {
+	if (store != cachepb.Store_CONFIG && store != cachepb.Store_STATE) || strings.Contains(name, "/") {
+		return paths
+	}
+	result := make([][]string, 0, len(paths))
+	for _, p := range paths {
+		lp := make([]string, 0, len(p))
+		for _, elem := range p {
+			if elem != "*" {
+				elem = regexp.QuoteMeta(elem)
+			}
+			lp = append(lp, elem)
+		}
+		result = append(result, lp)
+	}
+	return result
 }
 
 // underAnyPath reports if the path p is equal to or below one of the given paths, comparing element by element.
